@@ -582,3 +582,73 @@ pub fn sweep_activations(rep: &mut Report, stride: u64, cases: &[Value]) {
         }
     }
 }
+
+// ------------------------------------------------------------------------------------------------
+// Group "softmaxce" (C01, soft-max / cross-entropy clause)
+// ------------------------------------------------------------------------------------------------
+
+pub fn replay_softmaxce(case: &Value, rep: &mut Report) {
+    use neurons::activation::Activation;
+    let (n, m) = (usize_of(case, "n"), usize_of(case, "m"));
+    let id = format!("softmaxce:n{}m{}seed{}:t{}", n, m, case["seed"], case["t"]);
+    rep.nontrivial(id.clone());
+    let mut layer = neurons::dense::Dense::create(
+        neurons::tensor::Shape::Single(m),
+        neurons::tensor::Shape::Single(n),
+        &Activation::Softmax,
+        true,
+        None,
+    );
+    neurons::verif::set_dense(&mut layer, vec2(&case["W"]), Some(vec1(&case["b"])));
+    let x = Tensor::single(vec1(&case["x"]));
+    let t: Vec<f32> = case["t"].as_array().unwrap().iter().map(rat).collect();
+    let target = Tensor::single(t.clone());
+    let obj = neurons::objective::Function::create(neurons::objective::Objective::CrossEntropy, None);
+    rep.checks += 1;
+    let res = guarded(|| {
+        let (pre, post) = layer.forward(&x);
+        let (_, g) = obj.loss(&post, &target);
+        let (dx, dw, db) = layer.backward(&g, &x, &pre);
+        (flat(&pre), flat(&post), flat(&dx), flat(&dw), db.map(|b| flat(&b)))
+    });
+    let (z, p, dx, dw, db) = match res {
+        Ok(r) => r,
+        Err(e) => {
+            rep.mismatch("C01", "softmax_ce_panicked", &id, json!({"panic": e}), case);
+            return;
+        }
+    };
+    // expected gradient at the logits: symbolic derivative of the loss term, evaluated in double precision
+    let mut env = Env64::new();
+    for i in 0..n {
+        env.insert(format!("z{}", i + 1), z[i] as f64);
+        env.insert(format!("t{}", i + 1), t[i] as f64);
+    }
+    let dz: Vec<f64> = (0..n).map(|k| eval64(&case["dz"][k], &env)).collect();
+    let xs = flat(&x);
+    let w = vec2(&case["W"]);
+    // chain rule through z = W x + b
+    let want_db: Vec<f64> = dz.clone();
+    let want_dw: Vec<f64> = (0..n).flat_map(|i| xs.iter().map(move |xj| (i, *xj as f64))).map(|(i, xj)| dz[i] * xj).collect();
+    let want_dx: Vec<f64> = (0..m).map(|j| (0..n).map(|i| w[i][j] as f64 * dz[i]).sum()).collect();
+    let near = |a: f32, b: f64| (a as f64 - b).abs() <= 1e-5 * b.abs().max(1.0);
+    let got_db = db.unwrap_or_default();
+    let ok = got_db.iter().zip(want_db.iter()).all(|(a, b)| near(*a, *b))
+        && dw.iter().zip(want_dw.iter()).all(|(a, b)| near(*a, *b))
+        && dx.iter().zip(want_dx.iter()).all(|(a, b)| near(*a, *b));
+    if ok {
+        return;
+    }
+    // Is it exactly the known deviation: everything scaled by (n - 2) * sum(p^2)?
+    let scale: f64 = (n as f64 - 2.0) * p.iter().map(|q| (*q as f64) * (*q as f64)).sum::<f64>();
+    let scaled = got_db.iter().zip(want_db.iter()).all(|(a, b)| near(*a, scale * b))
+        && dw.iter().zip(want_dw.iter()).all(|(a, b)| near(*a, scale * b))
+        && dx.iter().zip(want_dx.iter()).all(|(a, b)| near(*a, scale * b));
+    rep.mismatch(
+        "C01",
+        "softmax_cross_entropy_gradient",
+        &id,
+        json!({"scaled_by_n_minus_2_times_sum_p_squared": scaled, "scale": scale, "observed_db": got_db, "expected_db": want_db}),
+        case,
+    );
+}
